@@ -1,3 +1,42 @@
+/-
+  PrtpyProofs.FF17Abs — first fit / best fit: towards the absolute bound `#bins ≤ ⌊1.7 · OPT⌋`
+  (Dósa and Sgall 2013 for first fit, 2014 for best fit).  Continues `PrtpyProofs.FF17` (same weight function,
+  same invariant `Inv2`, bins related by `Rel`), where `10 · #bins ≤ 17 · m + 10` is proved.
+
+  Delivered (all for a non-empty input; the model returns one empty bin for the empty input, so every bound
+  below `+ 10` needs `items ≠ []`, see the examples at the end of FF17.lean):
+
+      ff_seventeen_tenths_plus_9 / _plus_7 / _plus_6   :  10 · #bins ≤ 17 · m + 9 / 7 / 6
+      bf_seventeen_tenths_plus_9 / _plus_7 / _plus_6   :  the same for best fit
+      gen_seventeen_tenths_plus_7 / _plus_6            :  the same for every `Step2` ("almost first fit") loop
+      ff_fifteen_tenths_big / bf_fifteen_tenths_big    :  10 · #bins ≤ 15 · m + 2 · k + 7, where `k = nBig v B items`
+                                                          items exceed `B/2` (`+ 6` when `k ≥ 1`)
+      ff_seventeen_tenths_plus_4_partial / bf_…        :  10 · #bins ≤ 17 · m + 4   provided `k < m`
+      ff_seventeen_tenths_abs_partial / bf_…           :  10 · #bins ≤ 17 · m   provided
+                                                          m ≤ 2  ∨  m ≡ 0, 3, 6, 9 (mod 10)  ∨  k + 3 ≤ m
+      nBig_le                                          :  k ≤ m
+      ff_opt_one, ff_opt_two, ff_opt_three (bf_… too)  :  OPT = 1 ⇒ 1 bin, OPT = 2 ⇒ ≤ 3 bins, OPT = 3 ⇒ ≤ 5 bins
+
+  NOT proved: the absolute bound for every `m` (the requested `ff_seventeen_tenths_abs`).  Open residues:
+  `m ≡ 1, 2, 4, 5, 7, 8 (mod 10)` with `m ≥ 4` and more than `m − 3` items above `B/2` (`k ∈ {m − 2, m − 1, m}`; for
+  `k = m − 2` only `m ≡ 4, 7`, for `k = m − 1` only `m ≡ 1, 4, 7, 8` remain, by `ff_fifteen_tenths_big`).
+
+  How.  In units of `1/(10·B)`: FF17 shows `10·B·n ≤ W + 10·B` (`W` the total weight, `n` the number of bins) and
+  `W ≤ 17·B·m`.  Here the loss `10·B·n − W` is analysed again, with the bins split as in FF17 into *big* bins (an
+  item above `B/2`; weight `≥ 12·s + 4·B`), at most one *small* bin `S` (one item `x ≤ B/2`) and the *chain*
+  (`≥ 2` items, none above `B/2`), for which `chain_weight` yields a chain bin `L'` with
+  `10·B·r + 12·s(L') ≤ W(chain) + 10·B`:
+    * no chain: loss `< 4·B` (the small bin and a big bin overflow together);
+    * chain, no small bin: loss `≤ 10·B − 12·s(L')`; either `s(L') > B/4` (loss `< 7·B`), or every other bin is
+      more than `3/4` full and the *volume* bound `3·(n − 1) ≤ 4·m` is stronger than what is wanted;
+    * chain and small bin: loss `< 8·B − bonus(x) − Σ_big (12·s − 6·B)` because `s(L') + x > B`; if `x ≥ B/3` the
+      bonus is `B`; if `x < B/3` every big bin is more than `2/3` full and pays `2·B`; if there is no big bin
+      at all, no item exceeds `B/2` and the optimum's side improves to `W ≤ 15·B·m`
+      (`packable_weight_le_small`; in general `W ≤ 15·B·m + 2·B·k`, `packable_weight_le_count`).
+  This is `bins_weight6`; `bins_weight7` is the simpler version behind `+ 7` (Xia–Tan's constant).
+  The weight function alone cannot do better than a loss of `7/10` (bins `[sand of total 1/2], [1/2]` and big
+  bins `1/2 + ε`), so the remaining residues need the amortisation against the optimum's bins of Dósa–Sgall.
+-/
 import Prtpy
 import PrtpyProofs.Fit
 import PrtpyProofs.LPT43
@@ -505,6 +544,49 @@ theorem packable_weight_le_count {v : α → Nat} {B m : Nat} {items : List α}
 example : binSum (W id 10) [6, 5, 4, 3] ≤ 15 * (10 * 2) + 2 * (10 * nBig id 10 [6, 5, 4, 3]) :=
   packable_weight_le_count (v := id) ⟨[0, 1, 0, 1], ⟨rfl, by decide⟩, by decide⟩
 
+/-- values that fill at most half a bin: none exceeds `B/2` -/
+theorem countP_big_half (B : Nat) : ∀ l : List Nat, 2 * sumL l ≤ B →
+    l.countP (fun a => decide (B < 2 * a)) = 0
+  | [], _ => rfl
+  | a :: l, h => by
+    simp only [sumL] at h
+    have ih := countP_big_half B l (by omega)
+    have ha : ¬ B < 2 * a := by omega
+    simp [ih, ha]
+
+/-- a bin holds at most one value above `B/2` -/
+theorem countP_big_le_one (B : Nat) : ∀ l : List Nat, sumL l ≤ B →
+    l.countP (fun a => decide (B < 2 * a)) ≤ 1
+  | [], _ => by simp
+  | a :: l, h => by
+    simp only [sumL] at h
+    by_cases ha : B < 2 * a
+    · have := countP_big_half B l (by omega)
+      simp [this, ha]
+    · have := countP_big_le_one B l (by omega)
+      simp [ha]
+      exact this
+
+theorem groups_count_le (B : Nat) : ∀ Q : List (List Nat), (∀ l ∈ Q, sumL l ≤ B) →
+    Q.flatten.countP (fun a => decide (B < 2 * a)) ≤ Q.length
+  | [], _ => by simp
+  | l :: Q, h => by
+    have h1 := countP_big_le_one B l (h l List.mem_cons_self)
+    have h2 := groups_count_le B Q (fun l' hl' => h l' (List.mem_cons_of_mem _ hl'))
+    simp only [List.flatten_cons, List.countP_append, List.length_cons]
+    omega
+
+/-- at most `m` items exceed `B/2` when the items fit into `m` bins -/
+theorem nBig_le {v : α → Nat} {B m : Nat} {items : List α} (hm : Packable B m (items.map v)) :
+    nBig v B items ≤ m := by
+  obtain ⟨Q, hk, hp, hT⟩ := LPT43.packable_partition hm
+  have h2 : nBig v B items = (items.map v).countP (fun a => decide (B < 2 * a)) := by
+    simp only [nBig, List.countP_map]; rfl
+  rw [h2, ← hk, ← hp.countP_eq]
+  exact groups_count_le B Q hT
+
+example : nBig id 100 badItems ≤ 6 := nBig_le bad_packable
+
 theorem inv2_bound_big {v : α → Nat} {B m : Nat} {items : List α} {b : Bins α} (h : Inv2 v B items b)
     (hne : items ≠ []) (hm : Packable B m (items.map v)) :
     10 * b.lists.length ≤ 15 * m + 2 * nBig v B items + 7 ∧
@@ -567,6 +649,16 @@ theorem inv2_abs_partial {v : α → Nat} {B m : Nat} {items : List α} {b : Bin
     omega
   · omega
 
+/-- `+ 0.4` as soon as fewer than `m` items exceed `B/2` (some optimal bin has no such item) -/
+theorem inv2_plus4 {v : α → Nat} {B m : Nat} {items : List α} {b : Bins α} (h : Inv2 v B items b)
+    (hne : items ≠ []) (hm : Packable B m (items.map v)) (hk : nBig v B items < m) :
+    10 * b.lists.length ≤ 17 * m + 4 := by
+  have hb := inv2_bound_big h hne hm
+  by_cases h2 : m ≤ 2
+  · have := inv2_abs_partial h hne hm (Or.inl h2)
+    omega
+  · omega
+
 variable {v : α → Nat} {B m : Nat} {items : List α} {b : Bins α}
 
 /-! ## 5. The theorems -/
@@ -603,6 +695,17 @@ theorem bf_seventeen_tenths_plus_6 (hne : items ≠ []) (hok : bfOnline v B item
     (hm : Packable B m (items.map v)) : 10 * b.lists.length ≤ 17 * m + 6 :=
   inv2_bound6 (bfOnline_inv2 hok) hne hm
 
+/-- `⌈1.7 · OPT⌉` (Garey, Graham, Johnson, Yao 1976) -/
+theorem ff_seventeen_tenths_plus_9 (hne : items ≠ []) (hok : ffOnline v B items = .ok b)
+    (hm : Packable B m (items.map v)) : 10 * b.lists.length ≤ 17 * m + 9 := by
+  have := ff_seventeen_tenths_plus_6 hne hok hm
+  omega
+
+theorem bf_seventeen_tenths_plus_9 (hne : items ≠ []) (hok : bfOnline v B items = .ok b)
+    (hm : Packable B m (items.map v)) : 10 * b.lists.length ≤ 17 * m + 9 := by
+  have := bf_seventeen_tenths_plus_6 hne hok hm
+  omega
+
 /-- first fit: `1.5 · OPT + 0.2 · k + 0.7`, where `k` is the number of items above `B/2`
     (and `+ 0.6` when there is such an item) -/
 theorem ff_fifteen_tenths_big (hne : items ≠ []) (hok : ffOnline v B items = .ok b)
@@ -616,6 +719,16 @@ theorem bf_fifteen_tenths_big (hne : items ≠ []) (hok : bfOnline v B items = .
     10 * b.lists.length ≤ 15 * m + 2 * nBig v B items + 7 ∧
     (1 ≤ nBig v B items → 10 * b.lists.length ≤ 15 * m + 2 * nBig v B items + 6) :=
   inv2_bound_big (bfOnline_inv2 hok) hne hm
+
+/-- first fit: `+ 0.4` when fewer than `m` items exceed `B/2`; so the bounds `+ 0.5` and `+ 0.6` can only be
+    attained when every bin of the optimum holds an item above `B/2` -/
+theorem ff_seventeen_tenths_plus_4_partial (hne : items ≠ []) (hok : ffOnline v B items = .ok b)
+    (hm : Packable B m (items.map v)) (hk : nBig v B items < m) : 10 * b.lists.length ≤ 17 * m + 4 :=
+  inv2_plus4 (ffOnline_inv2 hok) hne hm hk
+
+theorem bf_seventeen_tenths_plus_4_partial (hne : items ≠ []) (hok : bfOnline v B items = .ok b)
+    (hm : Packable B m (items.map v)) (hk : nBig v B items < m) : 10 * b.lists.length ≤ 17 * m + 4 :=
+  inv2_plus4 (bfOnline_inv2 hok) hne hm hk
 
 /- The requested statement (open in general):
      theorem ff_seventeen_tenths_abs (hne : items ≠ []) (hok : ffOnline v B items = .ok b)
@@ -650,6 +763,16 @@ theorem ff_opt_two (hne : items ≠ []) (hok : ffOnline v B items = .ok b)
   have := inv2_abs_partial (ffOnline_inv2 hok) hne hm (Or.inl (by omega))
   omega
 
+theorem ff_opt_three (hne : items ≠ []) (hok : ffOnline v B items = .ok b)
+    (hm : Packable B 3 (items.map v)) : b.lists.length ≤ 5 := by
+  have := inv2_abs_partial (ffOnline_inv2 hok) hne hm (Or.inr (Or.inr (Or.inl rfl)))
+  omega
+
+theorem bf_opt_three (hne : items ≠ []) (hok : bfOnline v B items = .ok b)
+    (hm : Packable B 3 (items.map v)) : b.lists.length ≤ 5 := by
+  have := inv2_abs_partial (bfOnline_inv2 hok) hne hm (Or.inr (Or.inr (Or.inl rfl)))
+  omega
+
 theorem bf_opt_one (hne : items ≠ []) (hok : bfOnline v B items = .ok b)
     (hm : Packable B 1 (items.map v)) : b.lists.length = 1 := by
   have h := bfOnline_inv2 hok
@@ -676,4 +799,93 @@ example : 10 * 10 ≤ 17 * 6 + 6 := bf_seventeen_tenths_plus_6 (by decide) bad_b
 example : 10 * 10 ≤ 17 * 6 := ff_seventeen_tenths_abs_partial (by decide) bad_ff bad_packable (by decide)
 example : 10 * 10 ≤ 17 * 6 := bf_seventeen_tenths_abs_partial (by decide) bad_bf bad_packable (by decide)
 
+example : 10 * 10 ≤ 17 * 6 + 9 := ff_seventeen_tenths_plus_9 (by decide) bad_ff bad_packable
+example : 10 * 10 ≤ 17 * 6 + 9 := bf_seventeen_tenths_plus_9 (by decide) bad_bf bad_packable
+example : 10 * 10 ≤ 17 * 6 + 6 :=
+  gen_seventeen_tenths_plus_6 (items := badItems) (b := ⟨[90, 68, 68, 68, 51, 51, 51, 51, 51, 51],
+    [[15, 15, 15, 15, 15, 15], [34, 34], [34, 34], [34, 34], [51], [51], [51], [51], [51], [51]]⟩)
+    (ffStep_step2 id 100) (by decide) rfl bad_packable
+example : 10 * 10 ≤ 17 * 6 + 7 :=
+  gen_seventeen_tenths_plus_7 (items := badItems) (b := ⟨[90, 68, 68, 68, 51, 51, 51, 51, 51, 51],
+    [[15, 15, 15, 15, 15, 15], [34, 34], [34, 34], [34, 34], [51], [51], [51], [51], [51], [51]]⟩)
+    (bfStep_step2 id 100) (by decide) rfl bad_packable
+
+/-- six items above `B/2` in the bad instance: `100 ≤ 90 + 12 + 6` -/
+example : nBig id 100 badItems = 6 := by decide
+example : 10 * 10 ≤ 15 * 6 + 2 * nBig id 100 badItems + 6 :=
+  (ff_fifteen_tenths_big (by decide) bad_ff bad_packable).2 (by decide)
+example : 10 * 10 ≤ 15 * 6 + 2 * nBig id 100 badItems + 7 :=
+  (bf_fifteen_tenths_big (by decide) bad_bf bad_packable).1
+
+/-- `OPT = 4` is not one of the residues; the side condition holds because no item exceeds `B/2` -/
+example : 10 * 4 ≤ 17 * 4 :=
+  ff_seventeen_tenths_abs_partial (v := id) (B := 10) (items := [4, 4, 4, 4, 4, 4, 4, 4])
+    (b := ⟨[8, 8, 8, 8], [[4, 4], [4, 4], [4, 4], [4, 4]]⟩) (by decide) rfl
+    ⟨[0, 0, 1, 1, 2, 2, 3, 3], ⟨rfl, by decide⟩, by decide⟩ (by decide)
+example : 10 * 4 ≤ 17 * 4 :=
+  bf_seventeen_tenths_abs_partial (v := id) (B := 10) (items := [4, 4, 4, 4, 4, 4, 4, 4])
+    (b := ⟨[8, 8, 8, 8], [[4, 4], [4, 4], [4, 4], [4, 4]]⟩) (by decide) rfl
+    ⟨[0, 0, 1, 1, 2, 2, 3, 3], ⟨rfl, by decide⟩, by decide⟩ (by decide)
+
+example : 10 * 4 ≤ 17 * 4 + 4 :=
+  ff_seventeen_tenths_plus_4_partial (v := id) (B := 10) (items := [4, 4, 4, 4, 4, 4, 4, 4])
+    (b := ⟨[8, 8, 8, 8], [[4, 4], [4, 4], [4, 4], [4, 4]]⟩) (by decide) rfl
+    ⟨[0, 0, 1, 1, 2, 2, 3, 3], ⟨rfl, by decide⟩, by decide⟩ (by decide)
+example : 10 * 2 ≤ 17 * 2 + 4 :=
+  bf_seventeen_tenths_plus_4_partial (v := id) (B := 10) (items := [5, 6, 4, 5])
+    (b := ⟨[10, 10], [[5, 5], [6, 4]]⟩) (by decide) rfl ⟨[0, 1, 1, 0], ⟨rfl, by decide⟩, by decide⟩ (by decide)
+
+/-- small cases; `OPT = 2` with three first-fit bins is attained -/
+example : ([[3, 3, 4]] : List (List Nat)).length = 1 :=
+  ff_opt_one (v := id) (B := 10) (items := [3, 3, 4]) (b := ⟨[10], [[3, 3, 4]]⟩) (by decide) rfl
+    ⟨[0, 0, 0], ⟨rfl, by decide⟩, by decide⟩
+example : ([[3, 3, 4]] : List (List Nat)).length = 1 :=
+  bf_opt_one (v := id) (B := 10) (items := [3, 3, 4]) (b := ⟨[10], [[3, 3, 4]]⟩) (by decide) rfl
+    ⟨[0, 0, 0], ⟨rfl, by decide⟩, by decide⟩
+example : ([[5, 4], [6], [5]] : List (List Nat)).length ≤ 3 :=
+  ff_opt_two (v := id) (B := 10) (items := [5, 6, 4, 5]) (b := ⟨[9, 6, 5], [[5, 4], [6], [5]]⟩) (by decide) rfl
+    ⟨[0, 1, 1, 0], ⟨rfl, by decide⟩, by decide⟩
+example : ([[5, 5], [6, 4]] : List (List Nat)).length ≤ 3 :=
+  bf_opt_two (v := id) (B := 10) (items := [5, 6, 4, 5]) (b := ⟨[10, 10], [[5, 5], [6, 4]]⟩) (by decide) rfl
+    ⟨[0, 1, 1, 0], ⟨rfl, by decide⟩, by decide⟩
+example : ([[4, 4], [4, 6], [6], [6]] : List (List Nat)).length ≤ 5 :=
+  ff_opt_three (v := id) (B := 10) (items := [4, 4, 4, 6, 6, 6]) (b := ⟨[8, 10, 6, 6], [[4, 4], [4, 6], [6], [6]]⟩)
+    (by decide) rfl ⟨[0, 1, 2, 0, 1, 2], ⟨rfl, by decide⟩, by decide⟩
+
+/-- `items ≠ []` cannot be dropped: the empty input gets one (empty) bin and is packable into `0` bins -/
+example : ffOnline id 10 ([] : List Nat) = .ok ⟨[0], [[]]⟩ ∧ Packable 10 0 (([] : List Nat).map id) ∧
+    ¬ 10 * 1 ≤ 17 * 0 + 9 :=
+  ⟨rfl, ⟨[], ⟨rfl, by simp⟩, by simp [sumsOf]⟩, by decide⟩
+
+
 end Prtpy.FF17Abs
+
+/-
+Axiom audit (`#print axioms`, observed with Lean 4.33.0; every line printed exactly these three axioms):
+
+#print axioms Prtpy.FF17Abs.ff_seventeen_tenths_plus_9               -- [propext, Classical.choice, Quot.sound]
+#print axioms Prtpy.FF17Abs.bf_seventeen_tenths_plus_9               -- [propext, Classical.choice, Quot.sound]
+#print axioms Prtpy.FF17Abs.ff_seventeen_tenths_plus_7               -- [propext, Classical.choice, Quot.sound]
+#print axioms Prtpy.FF17Abs.bf_seventeen_tenths_plus_7               -- [propext, Classical.choice, Quot.sound]
+#print axioms Prtpy.FF17Abs.ff_seventeen_tenths_plus_6               -- [propext, Classical.choice, Quot.sound]
+#print axioms Prtpy.FF17Abs.bf_seventeen_tenths_plus_6               -- [propext, Classical.choice, Quot.sound]
+#print axioms Prtpy.FF17Abs.gen_seventeen_tenths_plus_7              -- [propext, Classical.choice, Quot.sound]
+#print axioms Prtpy.FF17Abs.gen_seventeen_tenths_plus_6              -- [propext, Classical.choice, Quot.sound]
+#print axioms Prtpy.FF17Abs.ff_fifteen_tenths_big                    -- [propext, Classical.choice, Quot.sound]
+#print axioms Prtpy.FF17Abs.bf_fifteen_tenths_big                    -- [propext, Classical.choice, Quot.sound]
+#print axioms Prtpy.FF17Abs.ff_seventeen_tenths_abs_partial          -- [propext, Classical.choice, Quot.sound]
+#print axioms Prtpy.FF17Abs.bf_seventeen_tenths_abs_partial          -- [propext, Classical.choice, Quot.sound]
+#print axioms Prtpy.FF17Abs.ff_seventeen_tenths_plus_4_partial       -- [propext, Classical.choice, Quot.sound]
+#print axioms Prtpy.FF17Abs.bf_seventeen_tenths_plus_4_partial       -- [propext, Classical.choice, Quot.sound]
+#print axioms Prtpy.FF17Abs.nBig_le                                  -- [propext, Classical.choice, Quot.sound]
+#print axioms Prtpy.FF17Abs.ff_opt_one                               -- [propext, Classical.choice, Quot.sound]
+#print axioms Prtpy.FF17Abs.ff_opt_two                               -- [propext, Classical.choice, Quot.sound]
+#print axioms Prtpy.FF17Abs.ff_opt_three                             -- [propext, Classical.choice, Quot.sound]
+#print axioms Prtpy.FF17Abs.bf_opt_one                               -- [propext, Classical.choice, Quot.sound]
+#print axioms Prtpy.FF17Abs.bf_opt_two                               -- [propext, Classical.choice, Quot.sound]
+#print axioms Prtpy.FF17Abs.bf_opt_three                             -- [propext, Classical.choice, Quot.sound]
+#print axioms Prtpy.FF17Abs.packable_weight_le_small                 -- [propext, Classical.choice, Quot.sound]
+#print axioms Prtpy.FF17Abs.packable_weight_le_count                 -- [propext, Classical.choice, Quot.sound]
+#print axioms Prtpy.FF17Abs.bins_weight6                             -- [propext, Classical.choice, Quot.sound]
+#print axioms Prtpy.FF17Abs.bins_weight7                             -- [propext, Classical.choice, Quot.sound]
+-/
